@@ -20,10 +20,14 @@ def isortBy {α : Type} (key : α → Nat) (l : List α) : List α :=
 structure St where
   c : Cache := {}
   r : LruRef.R := {}
-  varSize : Bool := false
+  /-- 0: every value has size 1 (`unit`); otherwise the size of `v` is `v % sizeMod` (`var`: 5; `wide`: 200, the
+  mode of the large cases, where one `Put` can evict a burst of entries) -/
+  sizeMod : Nat := 0
   keys : Nat := 0
 
-def sizeOfFor (varSize : Bool) (v : Nat) : Int := if varSize then (v % 5 : Nat) else 1
+def sizeOfFor (sizeMod : Nat) (v : Nat) : Int := if sizeMod == 0 then 1 else (v % sizeMod : Nat)
+
+def sizeModOf (mode : String) : Nat := if mode == "var" then 5 else if mode == "wide" then 200 else 0
 
 def fmtOut : Out → String
   | .bool b => fmtBool b
@@ -88,7 +92,7 @@ def observe (stepf : σ → Op → σ × Out) (s : σ) (op : Option Op) (keys : 
 
 def step (s : St) (toks : List String) (impl : String) : St × String × String :=
   let go (s : St) (op : Option Op) : St × String × String :=
-    let sz := sizeOfFor s.varSize
+    let sz := sizeOfFor s.sizeMod
     let isClear := op == some .clear
     let (c', m) := observe (Model.Cache.step C05.cfg sz) s.c op s.keys (·.evicted) false
     let (r', sp) := observe (LruRef.step sz) s.r op s.keys (·.evicted) isClear
@@ -121,7 +125,7 @@ def step (s : St) (toks : List String) (impl : String) : St × String × String 
   match toks with
   | ["reset", limit, mode, keys] =>
     let limit : Int := (limit.toNat?.getD 1 : Nat)
-    go { c := { limit := limit }, r := { limit := limit }, varSize := mode == "var", keys := keys.toNat?.getD 0 } none
+    go { c := { limit := limit }, r := { limit := limit }, sizeMod := sizeModOf mode, keys := keys.toNat?.getD 0 } none
   | _ => match parseOp toks with
     | some op => go s (some op)
     | none => (s, "bad-op", "bad bad-op")
